@@ -38,6 +38,9 @@ SHAPES = [
     ("gemini-1024", LIMIT_LINE),
     ("titan-1B", f"titan://{HOST}/up/a.txt;size=1;mime=text/plain".encode() + b"\r\n" + b"x"),
     ("titan-4k", f"titan://{HOST}/up/b.txt;size=4096;mime=text/plain".encode() + b"\r\n" + b"y" * 4096),
+    # IRI-style lines: every stall point inside a multi-byte character is enumerated too
+    ("gemini-nonascii", f"gemini://{HOST}/caf\u00e9/\u65e5\u672c\u8a9e/\U0001d11e.gmi".encode() + b"\r\n"),
+    ("titan-nonascii", f"titan://{HOST}/up/na\u00efve-\u20ac.txt;size=3;mime=text/plain".encode() + b"\r\nabc"),
 ]
 CIPHER_SPAN = 760   # covers ClientHello + Finished flights and the first application record
 
@@ -56,14 +59,21 @@ for _m in range(3):
     for _s in (2, 3):
         for _k in range(len(SHAPES[_s][1]) + 1):
             CASES.append(("plain-stall-mw", _m, _s, _k))
+# ... and behind a chain that REFUSES the upload: the refusal (or the 40, if the line
+# was still incomplete) must be followed by the close although content is outstanding
+for _m in range(3):
+    for _k in range(len(SHAPES[2][1]) + 1):
+        CASES.append(("plain-stall-mw-deny", _m, 2, _k))
+    for _k in list(range(0, 70)) + list(range(70, len(SHAPES[3][1]) + 1, 97)):
+        CASES.append(("plain-stall-mw-deny", _m, 3, _k))
 NENUM = len(CASES)
 
 TIERS = {"quick": NENUM + 20000, "thorough": NENUM + 2000000}
 CHUNK = 120
 RULE = (f"fault enumeration: runs 0..{NENUM - 1} enumerate every stall point - after every plaintext "
-        f"byte offset of 4 request shapes x 3 transport modes, and after every ciphertext byte "
+        f"byte offset of {len(SHAPES)} request shapes (two non-ASCII) x 3 transport modes, and after every ciphertext byte "
         f"offset 0..{CIPHER_SPAN - 1} of the client's handshake flights x 2 TLS backends x 2 shapes; "
-        f"the Titan stall points again behind an allowing middleware chain; "
+        f"the Titan stall points again behind an allowing and behind a refusing middleware chain; "
         f"the remaining runs are seeded: late data at T-e/T/T+e, slow handler or middleware "
         f"(up to 5 x T) after a complete request, 1-byte dribble that never completes, peer "
         f"disconnect around the deadline, random stalls. distinct = distinct (case, event "
@@ -71,7 +81,7 @@ RULE = (f"fault enumeration: runs 0..{NENUM - 1} enumerate every stall point - a
 PROBES = ["stall_in_handshake", "stall_in_request_line", "stall_in_titan_content",
           "complete_request_no_timeout", "late_data_at_boundary", "slow_handler_5T",
           "slow_middleware", "dribble", "stall_after_large_declared_size",
-          "request_as_several_records_in_one_flight", "damaged_stream_then_silence", "disconnect_near_deadline", "timeout_40_observed", "via_start_server"]
+          "request_as_several_records_in_one_flight", "damaged_stream_then_silence", "ipv6_peer", "refused_upload_with_content_outstanding", "disconnect_near_deadline", "timeout_40_observed", "via_start_server"]
 COMPONENTS = {
     "real": ["nauyaca.server.protocol (request timer)", "nauyaca.server.tls_protocol (handshake "
              "phase)", "asyncio sslproto handshake/shutdown timers", "OpenSSL"],
@@ -114,11 +124,14 @@ def run_one(ch):
         kind, m, s, k = CASES[ch.choose("case", NENUM)]
         mode = sw.MODES[m]
         name, stream = SHAPES[s]
-        if kind in ("plain-stall", "plain-stall-mw"):
+        if kind in ("plain-stall", "plain-stall-mw", "plain-stall-mw-deny"):
             sc["script"] = ([("send", stream[:k])] if k else []) + [("stall",)]
             sc["sent"] = stream[:k]
-            if kind == "plain-stall-mw":
+            if kind != "plain-stall":
                 sc["mwdelay"] = 0.0
+            if kind == "plain-stall-mw-deny":
+                sc["mwdeny"] = True
+            sc["ipv6"] = (k % 4 == 3)
         else:
             sc["script"] = [("send", stream), ("stall",)]
             sc["stall_cipher"] = k
@@ -126,8 +139,9 @@ def run_one(ch):
         sc["case"] = f"{kind}/{name}/k={k}"
     else:
         mode = sw.MODES[ch.choose("mode", 3)]
-        s = ch.choose("shape", 4)
+        s = ch.choose("shape", len(SHAPES))
         name, stream = SHAPES[s]
+        sc["ipv6"] = ch.chance("ipv6", 0.3)
         r = ch.choose("scen", 9, [4, 3, 2, 2, 2, 2, 2, 2, 2])
         sc["sent"] = stream
         if r == 0:      # late data around the deadline
@@ -224,6 +238,8 @@ def run_one(ch):
             async def process_request(self, url, ip, fp=None):
                 if sc["mwdelay"]:
                     await asyncio.sleep(sc["mwdelay"])
+                if sc.get("mwdeny"):
+                    return False, "53 Denied by policy\r\n"
                 return True, None
         mw = MiddlewareChain([Slow()])
     out = {}
@@ -259,7 +275,9 @@ def run_one(ch):
             server = await sw.start_protocol_server(sim, mode, spy, mw, upspy)
         t0 = net.now
         out["t0"] = t0
-        ep = raw_connect(net, HOST, 1965, c2s=WholePolicy(0.001), s2c=WholePolicy(0.001), tag="k0")
+        src = ("2001:db8::9", 50000, 0, 0) if sc.get("ipv6") else ("10.0.0.9", 50000)
+        ep = raw_connect(net, HOST, 1965, src=src, c2s=WholePolicy(0.001), s2c=WholePolicy(0.001),
+                         tag="k0")
         if sc["stall_cipher"] is not None:
             ep.tx.stall_at = sc["stall_cipher"]
         if sc.get("corrupt") is not None and sc["corrupt"] >= 0:
@@ -358,6 +376,23 @@ def run_one(ch):
                             f"peer went silent during the TLS handshake; the server had not ended "
                             f"the connection {T_HANDSHAKE} s after accept "
                             f"(closed at {t_close})", **ctx)
+        elif sc.get("mwdeny") and b"\r\n" in delivered_plain:
+            # the chain refused as soon as the line was complete; content is outstanding
+            limit = t_session + T + EPS
+            res.stats["refused_upload_with_content_outstanding"] += 1
+            if t_close is None or t_close > limit:
+                res.violate(f"C15/request-stall-not-closed/refused-upload/{site}",
+                            f"the chain refused the upload and the peer went silent before the last "
+                            f"content byte; connection not ended within the request timeout "
+                            f"(closed at {t_close}, limit {limit:.3f})", **ctx)
+            elif not rx or not pw["ok"] or pw["status"] not in (40, 53):
+                res.violate(f"C15/no-40-before-close/{site}",
+                            "refused upload, stalled peer: not exactly one well-formed response "
+                            "before the close", **ctx)
+            if t_close is not None and (t_tcp is None or t_tcp > limit + 31.0):
+                res.violate(f"C15/socket-held-open/{site}",
+                            "the stream was ended but the TCP connection was still open 31 s later",
+                            **ctx)
         elif not complete and late is None:
             limit = t_session + T + EPS
             if t_close is None or t_close > limit:
@@ -441,6 +476,8 @@ def run_one(ch):
         res.stats["slow_middleware"] += 1
     if sc["case"].startswith("dribble"):
         res.stats["dribble"] += 1
+    if sc.get("ipv6"):
+        res.stats["ipv6_peer"] += 1
     if sc.get("big_declared"):
         res.stats["stall_after_large_declared_size"] += 1
     if sc.get("records"):
